@@ -148,6 +148,13 @@ func genCmpDense(r *rand.Rand, profile string) string {
 
 func genCmpK(r *rand.Rand, profile string, k int) string {
 	ops := []string{"eq", "ne", "lt", "le", "gt", "ge"}
+	if r.Intn(7) == 0 { // free-text term (single token, optionally with a trailing wildcard)
+		w := []string{"abc", "ABC", "def", "xyz", "foo", "bar", "x", "hello", "zzz", "red", "nosuchword"}[r.Intn(11)]
+		if r.Intn(5) == 0 && len(w) > 1 {
+			w = w[:2] + "*"
+		}
+		return "t:" + hexs(w)
+	}
 	switch k {
 	case 0, 1:
 		return fmt.Sprintf("c:i:%s:i%d", ops[r.Intn(6)], r.Intn(26)-5)
@@ -477,6 +484,12 @@ func filterToSPL(rpn string) (string, bool) {
 		switch {
 		case it == "all":
 			st = append(st, "*")
+		case p[0] == "t" && len(p) == 2:
+			b, err := hex.DecodeString(p[1])
+			if err != nil {
+				return "", false
+			}
+			st = append(st, string(b))
 		case p[0] == "c" && len(p) == 4:
 			lit, ok := litToSPL(p[3])
 			op, ok2 := opm[p[2]]
